@@ -607,8 +607,11 @@ func ruleTabDegree(c *Ctx) {
 		}
 	}
 
+	// compound intervals: closed form checked on SSA (older recursive shape: constants extracted from the AST)
+	closed := c.checkCompound()
 	// octave constants: divisors / step / octave size in Degree.Semitone
 	span, octSize, octOK := c.extractOctaveConsts(hostPkg)
+	_ = closed
 	if octOK {
 		c.site(2)
 		c.check(span == 7, "note.Degree.Semitone|octave|span", "", "note.Degree.Semitone", "an octave spans 7 interval numbers", fmt.Sprintf("compound intervals are reduced by %d numbers per octave, want 7", span))
